@@ -34,6 +34,7 @@ type Action struct {
 	Us   int    `json:"us,omitempty"`
 	N    int    `json:"n,omitempty"`
 	Raw  string `json:"raw,omitempty"`
+	Fail string `json:"fail,omitempty"` // mutate: "" succeeds; canceled wrapped plain safe panic
 }
 
 type Trigger struct {
@@ -44,18 +45,18 @@ type Trigger struct {
 }
 
 type Case struct {
-	Spec     *world.Spec    `json:"spec"`
-	Modes    world.Modes    `json:"modes"`
-	Queries  []*world.Query `json:"queries"`
-	Texts    []string       `json:"texts"`
-	MaxSubs  int            `json:"max_subs"`
-	Sched    string         `json:"sched"`
-	Actions  []Action       `json:"actions"`
-	Triggers []Trigger      `json:"triggers,omitempty"`
-	Lifecycle bool          `json:"lifecycle"` // C17 mode: collisions, failures, malformed frames, close
-	HoldUs    int           `json:"hold_us,omitempty"` // the execution logger's Error takes this long: a failed run stays in flight
-	CloserDelayUs int       `json:"closer_delay_us,omitempty"` // every closeSubscription call is delayed at its entry (hook H6)
-	RerunDelayUs  int       `json:"rerun_delay_us,omitempty"`  // reactive.WriteThenReadDelay: an unsubscribe / close may land between invalidation and re-run
+	Spec          *world.Spec    `json:"spec"`
+	Modes         world.Modes    `json:"modes"`
+	Queries       []*world.Query `json:"queries"`
+	Texts         []string       `json:"texts"`
+	MaxSubs       int            `json:"max_subs"`
+	Sched         string         `json:"sched"`
+	Actions       []Action       `json:"actions"`
+	Triggers      []Trigger      `json:"triggers,omitempty"`
+	Lifecycle     bool           `json:"lifecycle"`                 // C17 mode: collisions, failures, malformed frames, close
+	HoldUs        int            `json:"hold_us,omitempty"`         // the execution logger's Error takes this long: a failed run stays in flight
+	CloserDelayUs int            `json:"closer_delay_us,omitempty"` // every closeSubscription call is delayed at its entry (hook H6)
+	RerunDelayUs  int            `json:"rerun_delay_us,omitempty"`  // reactive.WriteThenReadDelay: an unsubscribe / close may land between invalidation and re-run
 }
 
 // closerDelay (nanoseconds) is read by the hook installed once in init: goroutines of an
@@ -90,15 +91,15 @@ type watch struct {
 }
 
 type Store struct {
-	mu       sync.Mutex
-	epoch    map[string]int64
-	watchers map[string]map[*watch]struct{}
-	all      []*watch
-	calls    map[string]int
-	ncalls   int
-	triggers []Trigger
-	failNext int
-	gen      map[string]int
+	mu             sync.Mutex
+	epoch          map[string]int64
+	watchers       map[string]map[*watch]struct{}
+	all            []*watch
+	calls          map[string]int
+	ncalls         int
+	triggers       []Trigger
+	failNext       int
+	gen            map[string]int
 	WriteDuringRun int32
 	SlowCalls      int32
 }
@@ -224,7 +225,7 @@ func (l *subLogger) mark(ev string) {
 // is handled.
 type execLogger struct{ hold time.Duration }
 
-func (execLogger) StartExecution(ctx context.Context, tags map[string]string, initial bool)      {}
+func (execLogger) StartExecution(ctx context.Context, tags map[string]string, initial bool)     {}
 func (execLogger) FinishExecution(ctx context.Context, tags map[string]string, d time.Duration) {}
 func (l execLogger) Error(ctx context.Context, err error, tags map[string]string) {
 	if l.hold > 0 {
@@ -283,9 +284,9 @@ func openIDs(evs []string) (map[string]bool, int) {
 
 // Result of a run.
 type Result struct {
-	Labels []string
+	Labels     []string
 	Nontrivial bool
-	Trace  []string
+	Trace      []string
 }
 
 type liveSub struct {
@@ -342,9 +343,9 @@ func Run(c Case) (res Result, sig string, err error) {
 		<-served
 	}()
 
-	live := map[string]*liveSub{}      // model of accepted, not yet ended subscriptions
-	uncertain := map[string]bool{}     // ids whose subscription may have died by failure
-	ended := map[string]int{}          // owner -> calls at the time the harness learned it ended
+	live := map[string]*liveSub{}  // model of accepted, not yet ended subscriptions
+	uncertain := map[string]bool{} // ids whose subscription may have died by failure
+	ended := map[string]int{}      // owner -> calls at the time the harness learned it ended
 	client := fakesock.NewClient()
 	seg := 0
 	processed := 0
@@ -528,7 +529,15 @@ func Run(c Case) (res Result, sig string, err error) {
 			}
 			allowedThisSeg["error:"+id] = true
 			lg.mark("M:" + id)
-			sock.SendEnvelope(id, "mutate", map[string]interface{}{"query": fmt.Sprintf(`mutation { bump(typ: %q, id: %d) }`, a.Typ, a.Eid), "variables": map[string]interface{}{}})
+			_, idLive := live[id]
+			nLiveBefore := len(live)
+			mtext := fmt.Sprintf(`mutation { bump(typ: %q, id: %d) }`, a.Typ, a.Eid)
+			if a.Fail != "" {
+				mtext = fmt.Sprintf(`mutation { bumpErr(kind: %q) }`, a.Fail)
+				feats["mutate-fails"] = true
+			}
+			mOut0 := sock.NOut()
+			sock.SendEnvelope(id, "mutate", map[string]interface{}{"query": mtext, "variables": map[string]interface{}{}})
 			if !barrier() {
 				return res, "no-echo", fmt.Errorf("no echo reply after mutate")
 			}
@@ -543,6 +552,46 @@ func Run(c Case) (res Result, sig string, err error) {
 				return res, "mutate-no-result", fmt.Errorf("mutation %q got no result", id)
 			}
 			feats["mutate"] = true
+			// A mutation that has been answered is over: its id is free again. Unless the frame
+			// was refused (id of a live subscription, limit reached) or failures make the set of
+			// live subscriptions uncertain, a subscribe with that id must be accepted - at the
+			// latest a moment later (the server lets go of the id right after the answer).
+			refused := false
+			for _, o := range sock.Outs()[mOut0:] {
+				if m, _ := o.Msg.(string); o.ID == id && o.Type == "error" && (m == "duplicate subscription" || m == "too many subscriptions") {
+					refused = true
+				}
+			}
+			if !idLive && !refused && nLiveBefore < c.MaxSubs && len(uncertain) == 0 && !feats["failures"] {
+				allowedThisSeg[id] = true
+				accepted := false
+				for try := 0; try < 300 && !accepted; try++ {
+					p0 := sock.NOut()
+					sock.SendEnvelope(id, "subscribe", map[string]interface{}{"query": "{ __typename }", "variables": map[string]interface{}{}})
+					if !barrier() {
+						return res, "no-echo", fmt.Errorf("no echo reply after the subscribe that follows mutation %q", id)
+					}
+					rej := false
+					for _, o := range sock.Outs()[p0:] {
+						if o.ID == id && o.Type == "error" {
+							rej = true
+						}
+					}
+					if !rej {
+						accepted = true
+					} else {
+						time.Sleep(10 * time.Millisecond)
+					}
+				}
+				if !accepted {
+					return res, "mutation-id-not-released", fmt.Errorf("mutation %q (%s) was answered, nothing else uses its id and %d of %d subscriptions are live, yet for 3s every subscribe with that id was refused: %s", id, mtext, nLiveBefore, c.MaxSubs, dump(sock.Outs()[mOut0:]))
+				}
+				sock.SendEnvelope(id, "unsubscribe", nil)
+				if !barrier() {
+					return res, "no-echo", fmt.Errorf("no echo reply after unsubscribing the probe of mutation %q", id)
+				}
+				feats["mutation-id-probe"] = true
+			}
 		case "echo":
 			if !barrier() {
 				return res, "no-echo", fmt.Errorf("no echo reply")
@@ -851,6 +900,7 @@ func Gen(t *rapid.T, lifecycle bool) Case {
 				a.ID = fmt.Sprintf("m%d", i)
 			}
 			a.Typ, a.Eid = ent()
+			a.Fail = rapid.SampledFrom([]string{"", "", "", "canceled", "wrapped", "plain", "safe", "panic"}).Draw(t, "mfail")
 		case "pause":
 			a.Us = rapid.SampledFrom([]int{0, 100, 500, 2000}).Draw(t, "us")
 		case "failnext":
